@@ -37,7 +37,8 @@ TIERS = {
 }
 RULE = ('seeded runs: an edit history (2-14 ops, op mix / rule subset / name set drawn per run) over a fixed rule '
         'universe with shared prefixes, prefix splits, wildcard siblings, filter conflicts, two syntaxes of one pattern '
-        'and hook-only prefixes; sweep units: every op sequence of length <= 2 (quick) '
+        'and hook-only prefixes; in 12 % of the runs one edit of the history is applied on one thread while a second '
+        'thread looks paths up, interleaved by the deterministic scheduler (line or instruction granularity); sweep units: every op sequence of length <= 2 (quick) '
         '(thorough: every triple, in seeded order as far as the budget reaches) over a reduced op alphabet, each after a fixed prelude. A run is non-trivial when at least '
         'one edit was rejected by the router (the injected fault) or at least one removal / hook removal changed the '
         'tree. distinct = distinct digests of (op list) among non-trivial runs; states = distinct canonical '
@@ -46,7 +47,8 @@ STATE_MEASURE = 'distinct canonical serialisations (key, has-route, has-hook, fi
 COMPONENTS = {
     'real': ['ombott (Ombott.add_route/remove_route/on_route/remove_route_hook, RadiRouter, RadiDict, Route, parser, '
              'filters; Ombott.__call__ for the hook-firing oracle)'],
-    'simulated': ['WSGI server (sim.wsgi.call_app)', 'edit history generator and reference model (routes/names/hooks)'],
+    'simulated': ['WSGI server (sim.wsgi.call_app)', 'edit history generator and reference model (routes/names/hooks)',
+                  'thread scheduler (sim.sched) for the edit-with-concurrent-lookups step'],
     'stubbed': [],
 }
 ASSUMPTIONS = [
@@ -54,6 +56,7 @@ ASSUMPTIONS = [
     'hook lies at or under the prefix; in the others and in the sweeps the application settles every such hook itself right '
     'after the removal (installs it again or removes it explicitly), nothing is compared in between, everything afterwards',
     'whether an edit is accepted is never predicted by the model, only compared with a freshly built router',
+    'lookups running concurrently with an edit only read: what they return meanwhile is not judged, the router after the edit is',
     'on a 404 only what Ombott.handler consumes is compared (innermost partial hook, its position, parameter values)',
 ]
 
@@ -186,7 +189,17 @@ def gen_case(rng, tier):
     ops = [gen_op(rng, rules, hook_rules, names, weights) for _ in range(n)]
     if rng.random() < 0.08 and len(ops) > 2:
         ops.insert(rng.randrange(1, len(ops)), ['churn'])
-    return {'ops': ops, 'wsgi_every': rng.choice([0, 1, 1, 3]), 'over_hooks': rng.random() < 0.6}
+    case = {'ops': ops, 'wsgi_every': rng.choice([0, 1, 1, 3]), 'over_hooks': rng.random() < 0.6}
+    if rng.random() < 0.12:
+        # one edit of the history is applied while another thread is looking paths up (a server thread routing a
+        # request while the application is being reconfigured): lookups only read, so the router after the edit
+        # must be what it is without them.  The deterministic scheduler decides the interleaving.
+        from ..sched import gen_plan
+        at = rng.randrange(len(ops))
+        paths = rng.sample(PROBE_PATHS, rng.choice([1, 2, 4]))
+        case['conc'] = {'at': at, 'paths': paths, 'plan': gen_plan(rng, 60 + 90 * len(paths), 2),
+                        'gran': 'instr' if rng.random() < 0.25 else 'line'}
+    return case
 
 
 SWEEP_ALPHABET = [
@@ -324,6 +337,41 @@ def apply_real(app, op):
     except Exception as e:   # noqa
         return e
     return None
+
+
+def apply_with_lookups(app, op, conc, res):
+    """The edit on thread 0, lookups of conc['paths'] on thread 1, interleaved by the scheduler.  What the lookups
+    return while the edit is half done is not judged (nor an exception they meet); the edit's outcome and the
+    router afterwards are judged as for any other edit."""
+    from ..sched import Sched
+    from ..core import REPO
+    out = []
+    seen = []
+
+    def edit():
+        out.append(apply_real(app, op))
+
+    def lookups():
+        for path in conc['paths']:
+            for ml in (None, ['GET'], ['POST', 'ANY']):
+                try:
+                    r = app.router.resolve(path, ml) if ml else app.router.resolve(path)
+                    seen.append(bool(r))
+                except Exception:   # noqa
+                    seen.append('raised')
+    gran = conc.get('gran', 'line')
+    s = Sched(2, conc['plan'], prefixes=(REPO.rstrip('/') + '/ombott/',), granularity=gran,
+              max_steps=(2_000_000 if gran == 'instr' else 200_000))
+    s.run([edit, lookups], timeout=60.0)
+    if s.capped:
+        raise HarnessError('an edit with concurrent lookups exceeded its step cap')
+    for i in (0, 1):
+        if s.errors[i] is not None:
+            raise HarnessError(f'edit/lookup thread {i} raised {type(s.errors[i]).__name__}: {s.errors[i]}')
+    res['fired']['edit_with_concurrent_lookups'] += 1
+    if s.executed and len(s.executed) > 1:
+        res['fired']['edit_preempted_by_lookup'] += 1
+    return (out[0] if out else None), s.explicit_plan()
 
 
 def build_fresh(model):
@@ -555,7 +603,16 @@ def run_case(case):
             below = sorted((hp, v) for hp, v in model.hooks.items() if hp.startswith(pre))
             res['probes']['prefix-removed-over-hooks'] += 1
         prev_model = model.copy()
-        exc = apply_real(app, op)
+        conc = case.get('conc')
+        if conc is not None and conc['at'] == step and resolving is None and kind != 'churn':
+            exc, executed = apply_with_lookups(app, op, conc, res)
+            log(step, 'concurrent lookups', executed['switches'], 'first', executed['first'])
+            import copy as _copy
+            exp = _copy.deepcopy(case)
+            exp['conc']['plan'] = executed
+            res['explicit'] = exp
+        else:
+            exc = apply_real(app, op)
         # the same edit on an application freshly built from the previous state
         if resolving == 'unhook':
             outcome_twin = 'ok' if exc is None else type(exc).__name__      # unspecified state: any answer is fine
@@ -644,6 +701,9 @@ def run_case(case):
 
 
 def shrink_candidates(case):
+    if case.get('conc') is not None:
+        yield from _shrink_conc(case)
+        return
     ops = case['ops']
     for o in shrink.list_cands(ops, 1):
         yield {'ops': o, 'wsgi_every': case.get('wsgi_every', 0), 'over_hooks': case.get('over_hooks', False)}
@@ -663,3 +723,36 @@ def shrink_candidates(case):
                        'over_hooks': case.get('over_hooks', False)}
     if case.get('wsgi_every', 0) not in (0, 1):
         yield {'ops': ops, 'wsgi_every': 1, 'over_hooks': case.get('over_hooks', False)}
+
+
+def _shrink_conc(case):
+    """Candidates for a history with a concurrent step: without the concurrency at all, with fewer lookup paths, with a
+    simpler plan, and with single other edits removed (the index of the concurrent edit follows)."""
+    import copy
+    from ..sched import simpler_plans
+    c = copy.deepcopy(case)
+    c.pop('conc')
+    yield c
+    conc = case['conc']
+    for k in range(len(conc['paths'])):
+        if len(conc['paths']) > 1:
+            c = copy.deepcopy(case)
+            c['conc']['paths'] = conc['paths'][:k] + conc['paths'][k + 1:]
+            yield c
+    for pl in simpler_plans(conc['plan']):
+        c = copy.deepcopy(case)
+        c['conc']['plan'] = pl
+        yield c
+    if conc.get('gran') == 'instr':
+        c = copy.deepcopy(case)
+        c['conc']['gran'] = 'line'
+        yield c
+    ops = case['ops']
+    for i in range(len(ops)):
+        if i == conc['at'] or len(ops) < 2:
+            continue
+        c = copy.deepcopy(case)
+        c['ops'] = ops[:i] + ops[i + 1:]
+        if i < conc['at']:
+            c['conc']['at'] = conc['at'] - 1
+        yield c
